@@ -462,16 +462,18 @@ def parse_declarations(toks):
                 important = False
                 v = [t for t in value]
                 # strip trailing ws/comments, then "!" ws* "important"
+                # (css-syntax: "!" followed by "important", with only whitespace - and comments, which are not tokens at
+                # that level - between and after them; such comments are kept at the end of the value so that they stay comparable)
                 m = len(v)
-                while m > 0 and v[m - 1][0] in ("ws",):
+                while m > 0 and v[m - 1][0] in ("ws", "comment"):
                     m -= 1
                 if m >= 2 and v[m - 1][0] == "ident" and v[m - 1][1].lower() == "important":
                     q = m - 2
-                    while q >= 0 and v[q][0] in ("ws",):
+                    while q >= 0 and v[q][0] in ("ws", "comment"):
                         q -= 1
                     if q >= 0 and v[q] == ("delim", "!"):
                         important = True
-                        v = v[:q]
+                        v = v[:q] + [t for t in v[q:] if t[0] == "comment"]
                 out.append(("decl", part[0][1], list(_trim(v)), important))
                 continue
         out.append(("junk", list(part)))
